@@ -79,6 +79,17 @@ theorem pairwiseDistinct_iff (ms : List AList) :
 example : pairwiseDistinct [[(1, true), (2, true)], [(1, true), (2, false)], [(1, false), (2, true)]] = true := by decide
 example : pairwiseDistinct [[(1, true), (2, true)], [(1, false), (2, true)], [(1, true), (2, true)]] = false := by decide
 
+/-- T-spec (C01): the checker the driver actually runs on `Result.solutions` (base-3 codes over the
+variables `vs` first, the exact quadratic check as fallback) decides the same relation, for any `vs`. -/
+theorem distinctB_iff (vs : List Nat) (ms : List AList) :
+    distinctB vs ms = true ↔ ms.Pairwise (fun a b => ∃ v, a.lookup v ≠ b.lookup v) := by
+  unfold distinctB
+  rw [Bool.or_eq_true, pairwiseDistinct_iff]
+  exact ⟨fun h => h.elim fastDistinct_sound id, Or.inr⟩
+
+example : distinctB [1, 2] [[(1, true), (2, true)], [(1, true), (2, false)]] = true ∧
+    fastDistinct [1, 2] [[(1, true), (2, true)], [(1, true), (2, false)]] = true := by decide
+
 /-- T-model (C01/C02): the reference DPLL answers "satisfiable" exactly when formula and assumptions
 have a common model – for every CNF without the literal 0 (fuel proved sufficient). -/
 theorem dpll_sat_iff (f : Cnf) (as : List Int) (hf : WF f) (ha : ∀ a ∈ as, a ≠ 0) :
@@ -87,7 +98,7 @@ theorem dpll_sat_iff (f : Cnf) (as : List Int) (hf : WF f) (ha : ∀ a ∈ as, a
   exact ⟨fun ⟨σ, h⟩ => ⟨σ, cnfTrue_withAssumptions.1 h⟩, fun ⟨σ, h⟩ => ⟨σ, cnfTrue_withAssumptions.2 h⟩⟩
 
 example : WF [[1, 2], [-1, 3], [-2, -3]] ∧ solve (withAssumptions [[1, 2], [-1, 3], [-2, -3]] [-1]) = true :=
-  ⟨by decide, by decide⟩
+  ⟨wfB_iff.1 (by decide), by decide⟩
 
 /-- T-model (C01): the enumerator lists the models of `f` projected to the distinct variables
 `vs`, each exactly once: every entry assigns exactly `vs` and extends to a model; the projection of
